@@ -250,8 +250,9 @@ def _families(tier):
         fams.append(BodyPairs('reorient', pose, pairs if pose.name == 'P0' else qp,
                               {'maps': ((A.P1.M, F(1, 2)), (A.P2.M, F(1, 4)), (A.P3.M, 1), (ROT345Z, F(1, 4)), (ROT90Z, 1), (RX90, 1)),
                                'window': window(-1, 1, 1)}))
-    fams.append(BodyPairs('translate-half', A.P0, qp, {'window': window(-2, 2, F(1, 2))}))
-    fams[-1].kind = 'translate'
+    half = BodyPairs('translate', A.P0, qp, {'window': window(-2, 2, F(1, 2))})
+    half.name = 'translate-half/P0'
+    fams.append(half)
     return fams
 
 
